@@ -243,10 +243,10 @@ def _ba_samples():
                     if not present and extra:
                         continue  # without any block the non-spatial axes are unknown: only the plain YX case is meaningful
                     for dtype in ("uint8", "float32") if not thorough else ("uint8", "int16", "float32"):
-                        for fill in (None, 7):
+                        for fill in (None, 7, -1, float("nan")):  # incl. fills the blocks' dtype cannot hold
                             yield dict(chy=chy, chx=chx, present=present, axis=axis, extra=extra, dtype=dtype, fill=fill)
 
-    return "4 chunkings (1-3 tiles per axis, tile sides 1-3) x 5 subsets of present blocks (all / alternating / one / none) x 3 axis layouts (YX, T-YX, YX-B) x 2-3 dtypes x fill None/7; every window of the mosaic for the smaller cases, 12 windows otherwise", gen()
+    return "4 chunkings (1-3 tiles per axis, tile sides 1-3) x 5 subsets of present blocks (all / alternating / one / none) x 3 axis layouts (YX, T-YX, YX-B) x 2-3 dtypes x fill None / 7 / -1 / NaN (incl. fills the blocks' dtype cannot hold); every window of the mosaic for the smaller cases, 12 windows otherwise", gen()
 
 
 def _ba_oracle(args, run=None):
@@ -264,7 +264,7 @@ def _ba_oracle(args, run=None):
     post = extra if (axis == 0 and extra) else ()
     full_shape = (*pre, ny, nx, *post)
     rng = np.random.default_rng(ny * 31 + nx)
-    truth = rng.integers(1, 100, size=full_shape).astype(dtype)
+    truth = rng.integers(1, 250 if np.dtype(dtype).itemsize == 1 else 30000, size=full_shape).astype(dtype)  # values a narrower type of another kind would wrap / round
     blocks = {}
     for iy, ix in present:
         sl = (*(slice(None) for _ in pre), slice(oy[iy], oy[iy + 1]), slice(ox[ix], ox[ix + 1]), *(slice(None) for _ in post))
@@ -278,7 +278,7 @@ def _ba_oracle(args, run=None):
         fails.append(f"post:shape of the mosaic ({ba.shape} vs {full_shape})")
     eff_fill = fill if fill is not None else (np.nan if np.dtype(ba.dtype).kind == "f" else 0)
     dense_shape = full_shape if present else (ny, nx)
-    dense = np.full(dense_shape, eff_fill, dtype=ba.dtype)
+    dense = np.full(dense_shape, eff_fill, dtype="float64")  # the mosaic as NUMBERS: whatever dtype comes back must hold every value and the fill
     for (iy, ix), b in blocks.items():
         sl = (*(slice(None) for _ in pre), slice(oy[iy], oy[iy + 1]), slice(ox[ix], ox[ix + 1]), *(slice(None) for _ in post))
         dense[sl] = b
@@ -290,7 +290,7 @@ def _ba_oracle(args, run=None):
         got = ba.extract(fill, roi=w)
         sl = (*(slice(None) for _ in (pre if present else ())), *w, *(slice(None) for _ in (post if present else ())))
         want = dense[sl]
-        if got.shape != want.shape or not np.array_equal(got, want, equal_nan=True):
+        if got.shape != want.shape or not np.array_equal(got.astype("float64"), want, equal_nan=True):
             fails.append(f"post:window {w} of the assembled array equals the same window of the dense mosaic (present blocks copied, the rest filled)")
             break
     # N-d windows: a single plane / a sub-range of the non-spatial axis, combined with a Y/X window
